@@ -240,6 +240,24 @@ fn len_strategy(cfg: GenCfg) -> BoxedStrategy<usize> {
     }
 }
 
+/// Rough number of nodes of a small value of the closed type `t` (sequences counted as one item).
+pub fn val_weight(u: &Universe, t: &Ty, depth: usize) -> usize {
+    if depth > 12 {
+        return 1;
+    }
+    match t {
+        Ty::Array(e, _) => 1 + t.array_len() * val_weight(u, e, depth + 1),
+        Ty::Tuple(e, n) => 1 + n * val_weight(u, e, depth + 1),
+        Ty::Vec(e) | Ty::BoxSlice(e) | Ty::Option(e) | Ty::Bound(e) | Ty::Range(_, e) => 1 + val_weight(u, e, depth + 1),
+        Ty::ControlFlow(b, c) => 1 + val_weight(u, b, depth + 1).max(val_weight(u, c, depth + 1)),
+        Ty::Adt(i, args) => {
+            let d = &u.adts[*i];
+            1 + (0..d.n_variants()).map(|v| u.inst_fields(*i, args, v).iter().map(|f| val_weight(u, f, depth + 1)).sum::<usize>()).max().unwrap_or(0)
+        }
+        _ => 1,
+    }
+}
+
 /// Strategy for values of the closed type `t`.
 pub fn val_strategy(u: &Universe, t: &Ty, cfg: GenCfg) -> BoxedStrategy<Val> {
     val_strategy_d(u, t, cfg, 0)
@@ -256,7 +274,8 @@ fn val_strategy_d(u: &Universe, t: &Ty, cfg: GenCfg, depth: usize) -> BoxedStrat
         Ty::Vec(e) | Ty::BoxSlice(e) => {
             let es = rec(e);
             // items of hundreds of components: a few of them are enough
-            let sub = if matches!(&**e, Ty::Array(..)) && e.array_len() >= 256 { GenCfg { max_len: sub.max_len.min(5), long: false } } else { sub };
+            let w = val_weight(u, e, 0);
+            let sub = if w >= 256 { GenCfg { max_len: sub.max_len.min((20_000 / w).clamp(2, 5)), long: false } } else { sub };
             len_strategy(sub).prop_flat_map(move |n| prop::collection::vec(es.clone(), n..=n)).prop_map(Val::Seq).boxed()
         }
         Ty::Array(e, _) => {
